@@ -32,6 +32,29 @@ TABLE_WRITES = {'add_object', 'add_object_no_lock', 'add_objects', 'remove_objec
                 'rm_descriptor_by_handle', 'rm_descriptors_and_states', 'clear'}
 
 
+def _state_confirmed_in_lock(g, n, atom):
+    """n is dominated by an edge on which `atom` holds, and the state was READ for that test inside the buffer lock: either the
+    test itself reads self._state inside the lock, or it tests a local that was bound to the comparison inside the lock."""
+    from engine.cfg import _atoms, canon_lit
+    want = canon_lit(atom, True)
+    for b in g.nodes:
+        if not (b.kind == 'branch' and b.label in (True, False) and g.dominates(b, n)):
+            continue
+        resolved = g.origin_expr(b, b.test, tests=True) or b.test
+        lits = []
+        _atoms(resolved, b.label, lits)
+        if not any(canon_lit(t, p) == want for t, p in lits):
+            continue
+        if '_state' in ast.unparse(b.test):
+            readers = [b]
+        else:
+            readers = [d for x in ast.walk(b.test) if isinstance(x, ast.Name)
+                       for d in [g.unique_def(b, x.id)] if d is not None and '_state' in d.text()]
+        if readers and all(g.held_withs(r, '_buffered_notifications_lock') for r in readers):
+            return True
+    return False
+
+
 def run(ctx):  # noqa: C901, PLR0912, PLR0915
     repo = ctx.repo
     ctx.rule('C06.R1', 'MdibVersion gate: abstract evaluation over the orderings + dominance over all table writes')
@@ -145,26 +168,34 @@ def run(ctx):  # noqa: C901, PLR0912, PLR0915
     ok = len(wd) == 1 and bool(state_reads) and all(g.dominates(wd[0][0], n) for n in state_reads)
     ctx.ob('C06.R3', 'watchdog before state', ok, '_pre_check_report_ok runs the sequence/instance watchdog before it '
            'looks at the state', fi=pc)
-    rets = [n for n in g.nodes if n.kind == 'return']
-    inv = [n for n in rets if any(t == 'self._state == ConsumerMdibState.invalid' and p for t, p in g.facts_at(n))]
-    ok = bool(inv) and all(isinstance(n.stmt.value, ast.Constant) and n.stmt.value.value is False for n in inv)
+    # Verdicts on what is returned are three-valued evaluations of the returned expression under the branch facts (with
+    # boolean locals such as `still_initializing = self._state == ...` written out): `return False`, `return not still_init`
+    # and `return self._state != X` are the same thing here.
+    from engine.cfg import truth_under
+    INVALID, INITIALIZING = 'self._state == ConsumerMdibState.invalid', 'self._state == ConsumerMdibState.initializing'
+    rets = [n for n in g.nodes if n.kind == 'return' and n.stmt.value is not None]
+
+    def _ret_truth(r, facts):
+        v = g.origin_expr(r, r.stmt.value, tests=True) or r.stmt.value
+        return truth_under(v, facts)
+    inv = [n for n in rets if (INVALID, True) in g.facts_at(n)]
+    ok = bool(inv) and all(_ret_truth(n, g.facts_at(n)) is False for n in inv)
     ctx.ob('C06.R3', 'invalid rejects', ok, 'in state `invalid` every report is refused', fi=pc)
-    buf = [n for n in rets if any(t == 'self._state == ConsumerMdibState.initializing' and p for t, p in g.facts_at(n))]
-    ok = bool(buf) and all(isinstance(n.stmt.value, ast.Constant) and n.stmt.value.value is False for n in buf)
+    app = [n for n, c in g.nodes_calling('append') if '_buffered_notifications' in unparse(c.func)]
+    # every return that can follow the buffering returns False (evaluated under the facts that held when it was buffered)
+    ok = bool(app)
+    for a_ in app:
+        after = [r for r in rets if g.path_exists(a_, r, normal_only=True)]
+        ok = ok and bool(after) and all(_ret_truth(r, g.facts_at(a_)) is False for r in after)
     ctx.ob('C06.R3', 'initializing buffers and does not apply', ok,
            'in state `initializing` the report is buffered and not applied now', fi=pc)
-    tr = [n for n in rets if isinstance(n.stmt.value, ast.Constant) and n.stmt.value.value is True]
-    ok = len(tr) == 1 and all(any(t == 'self._state == ConsumerMdibState.invalid' and p is False
-                                  for t, p in g.facts_at(n)) for n in tr)
+    maybe_true = [n for n in rets if _ret_truth(n, g.facts_at(n)) is not False]
+    ok = bool(maybe_true) and all((INVALID, False) in g.facts_at(n) for n in maybe_true)
     ctx.ob('C06.R3', 'accept only when not invalid', ok, 'True is returned only on the path where the state is not '
            '`invalid`', fi=pc)
-    app = [n for n, c in g.nodes_calling('append') if '_buffered_notifications' in unparse(c.func)]
     ok = bool(app)
     for n in app:
-        inner = [b for b in g.nodes if b.kind == 'branch' and b.label is True and
-                 unparse(b.test) == 'self._state == ConsumerMdibState.initializing' and
-                 g.held_withs(b, '_buffered_notifications_lock')]
-        ok = ok and bool(g.held_withs(n, '_buffered_notifications_lock')) and any(g.dominates(b, n) for b in inner)
+        ok = ok and bool(g.held_withs(n, '_buffered_notifications_lock')) and _state_confirmed_in_lock(g, n, INITIALIZING)
     ctx.ob('C06.R3', 'buffering re-checks the state under the lock', ok,
            'a report is put into the buffer only inside the buffer lock and after `initializing` was confirmed there' if ok
            else 'a report is appended to the buffer on the strength of the unlocked state check alone: when reload_all '
